@@ -650,7 +650,7 @@ def run(ck):
             d = matmul_descriptor(fm)
             ck.ob('R-TABLE-matmul', key, d == MATMUL_REF, ck.site(key), 'reference Mul impl is not the F2 matrix product (descriptor %s)' % (d,), sample={'descriptor': str(d)})
         else:
-            ok, why, summ = rops.check_impl(fm, op, is_assign)
+            ok, why, summ = rops.check_impl(fm, op, is_assign, ordered=('Sub', 'Div', 'Mul'))    # matrix multiplication does not commute
             ck.ob('R-OPS', key, ok, ck.site(key), why, sample={'applications': summ})
     ck.floor('R-OPS', len(muls), 4)
     ck.floor('R-TABLE-matmul', nref, 1)
